@@ -4418,6 +4418,14 @@ GRsetattr(int32 id, const char *name, int32 attr_nt, int32 count, const void *da
     else /* shouldn't get here, but what the heck... */
         HGOTO_ERROR(DFE_ARGS, FAIL);
 
+    /* GRend writes nothing to a file opened read-only: refuse instead of dropping the attribute silently */
+    {
+        filerec_t *file_rec = HAatom_object(hdf_file_id);
+
+        if (file_rec == NULL || ((file_rec->access) & DFACC_WRITE) == 0)
+            HGOTO_ERROR(DFE_DENIED, FAIL);
+    }
+
     /* Search for an attribute with the same name */
     if ((t = (void **)tbbtfirst(search_tree->root)) != NULL) {
         do {
